@@ -198,7 +198,12 @@ def gen_script(rng, app_slots=False, small=False):
     mem = rng.choice([0, 0, 8])
     cfg = {'cpn': cpn, 'gpn': gpn, 'lfs': lfs, 'mem': mem, 'scattered': rng.random() < 0.8}
     nodes = []
-    for i in range(nn):
+    # node indices are unique but need not be list positions: the resource manager drops unreachable
+    # nodes and keeps the indices of the others (_filter_nodes with backup nodes)
+    idxs = list(range(nn))
+    if rng.random() < 0.25:
+        idxs = sorted(rng.sample(range(nn + 2), nn))
+    for i in idxs:
         cores = [0] * cpn
         gpus  = [0] * gpn
         if rng.random() < 0.15 and cpn > 1: cores[rng.randrange(cpn)] = None       # blocked
@@ -230,7 +235,7 @@ def gen_script(rng, app_slots=False, small=False):
                     if rng.random() < 0.04: r['ranks'] = rng.choice([0, -1])
                     if app_slots and rng.random() < 0.25:
                         r['ranks'], r['cpr'], r['gpr'], r['lfs'], r['mem'] = 1, 1, 0, 0, 0
-                        r['app'] = [{'node': rng.randrange(nn), 'cores': [rng.randrange(cpn)], 'gpus': [],
+                        r['app'] = [{'node': rng.choice(idxs), 'cores': [rng.randrange(cpn)], 'gpus': [],
                                      'lfs': 0, 'mem': 0}]
                     ts.append(r); all_uids.append(uid); uid += 1
                 it['incoming'].append({'sched': ts})
